@@ -63,7 +63,7 @@ pub fn c10(ctx: &Ctx) -> PropResult {
             for pos in 0..*arity {
                 for (_, e) in EXEMPLARS {
                     let args: Vec<String> = (0..*arity).map(|i| if i == pos { e.to_string() } else { plausible_arg(module, name, i).to_string() }).collect();
-                    let show = if name == "RANDOM" { "DISPLAY(\"after\")" } else { "DISPLAY(r)" };
+                    let show = if name == "RANDOM" { "DISPLAY(\"after\")".to_string() } else { format!("DISPLAY(r)\n{}", crate::props6::TYPE_PROBE) };
                     cases.push(run_case(format!("{pre}lst <- [1, 2]\nmp <- MAP()\nDISPLAY(\"call\")\nr <- {name}({})\n{show}\nDISPLAY(lst)\n", args.join(", ")), &format!("{module}.{name}")));
                 }
             }
@@ -204,7 +204,7 @@ pub fn c10(ctx: &Ctx) -> PropResult {
     let stats = run_cases(&ctx.driver, cases, &no_panic_oracle, &no_known, ctx.threads);
     PropResult {
         stats,
-        rule: format!("registry-driven sweep: every procedure of CORE, MATH, STRING, MAP, IO, STYLE, TIME found in the live registry (except INPUT*/RANDOM/TIME, see C12/C15) applied to argument tuples over {} exemplars per position (all tuples when they fit the budget, otherwise every exemplar at every position plus random tuples); every statement form applied to every exemplar; random stateful programs calling library procedures; in-process under catch_unwind with a statement budget; non-trivial = ended normally or with a runtime error; the same call site run twice with the name re-bound in between (user procedure with fewer parameters / IMPORT of the library module, both orders); library procedures that build lists called twice with the first result changed in between; 64 texts that are fragments of number syntax through the text procedures", EXEMPLARS.len()),
+        rule: format!("registry-driven sweep: every procedure of CORE, MATH, STRING, MAP, IO, STYLE, TIME found in the live registry (except INPUT*/RANDOM/TIME, see C12/C15) applied to argument tuples over {} exemplars per position (all tuples when they fit the budget, otherwise every exemplar at every position plus random tuples); every statement form applied to every exemplar; random stateful programs calling library procedures; in-process under catch_unwind with a statement budget; non-trivial = ended normally or with a runtime error; the same call site run twice with the name re-bound in between (user procedure with fewer parameters / IMPORT of the library module, both orders); library procedures that build lists called twice with the first result changed in between; 64 texts that are fragments of number syntax through the text procedures; the type of every result (r == \"\" + r, LENGTH(r)) besides its text", EXEMPLARS.len()),
         exhaustive: false,
         notes: vec![],
     }
@@ -382,6 +382,10 @@ pub fn c14(ctx: &Ctx) -> PropResult {
     for src in crate::props6::number_fragment_family() {
         cases.push(run_case(src, "number-fragments"));
     }
+    // JOIN's result is a text whatever the list holds (its type is observed, not only what it looks like)
+    for src in crate::props6::join_result_type_family() {
+        cases.push(run_case(src, "join-result-type"));
+    }
     // texts with line structure (LF, CR LF, lone CR, tabs) through the two-argument procedures
     for src in crate::props6::line_structure_family() {
         cases.push(run_case(src, "line-structure"));
@@ -395,7 +399,7 @@ pub fn c14(ctx: &Ctx) -> PropResult {
     let stats = run_cases(&ctx.driver, cases, &oracle, &no_known, ctx.threads);
     PropResult {
         stats,
-        rule: format!("every string of length <= {max} over {{a, b, blank, é, 中, 😀}} through all one-argument STRING procedures, LENGTH / FOR EACH / largest valid index consistency, a sample of patterns of length <= 2 for CONTAINS / STARTS_WITH / ENDS_WITH / SPLIT / JOIN / REPLACE with the law JOIN(SPLIT(s,p),p) = s evaluated in-language, SUBSTRING with start / length over {{-1, 0, 0.5, 1, 1.9, 2, LENGTH, LENGTH+1, NaN, inf}}; TO_NUMBER / TO_BOOL on 27 spellings; random Unicode strings incl. case-mapping specials (ß, İ, ǅ, ﬁ) and Unicode blanks; non-trivial = ended normally or with a runtime error; SPLIT called twice with the first result changed in between; fragments of number syntax; texts with LF / CR LF / lone CR / tabs through SPLIT / JOIN / REPLACE / CONTAINS / TRIM"),
+        rule: format!("every string of length <= {max} over {{a, b, blank, é, 中, 😀}} through all one-argument STRING procedures, LENGTH / FOR EACH / largest valid index consistency, a sample of patterns of length <= 2 for CONTAINS / STARTS_WITH / ENDS_WITH / SPLIT / JOIN / REPLACE with the law JOIN(SPLIT(s,p),p) = s evaluated in-language, SUBSTRING with start / length over {{-1, 0, 0.5, 1, 1.9, 2, LENGTH, LENGTH+1, NaN, inf}}; TO_NUMBER / TO_BOOL on 27 spellings; random Unicode strings incl. case-mapping specials (ß, İ, ǅ, ﬁ) and Unicode blanks; non-trivial = ended normally or with a runtime error; SPLIT called twice with the first result changed in between; fragments of number syntax; texts with LF / CR LF / lone CR / tabs through SPLIT / JOIN / REPLACE / CONTAINS / TRIM; JOIN over lists of length 0 .. 2 of every element kind with the result's type observed"),
         exhaustive: false,
         notes: vec!["Σ (final-sigma rule of to_lowercase) is excluded from the alphabets: the model's TO_LOWER is context-free".into()],
     }
@@ -685,6 +689,9 @@ pub fn c16(ctx: &Ctx) -> PropResult {
     for src in crate::props6::map_equal_values_family() {
         cases.push(run_case(src, "equal-values"));
     }
+    for src in crate::props6::map_of_maps_family() {
+        cases.push(run_case(src, "map-of-maps"));
+    }
     // a stored list that comes out of MAP_GET / MAP_INSERT / MAP_VALUES is the stored list itself
     for src in crate::props6::library_result_identity_family() {
         cases.push(run_case(src, "library-result-identity"));
@@ -692,7 +699,7 @@ pub fn c16(ctx: &Ctx) -> PropResult {
     let stats = run_cases(&ctx.driver, cases, &oracle, &no_known, ctx.threads);
     PropResult {
         stats,
-        rule: "histories of MAP_INSERT / MAP_GET / MAP_CONTAINS_KEY on two maps with keys {1, 1.0, 0, -0, \"1\", TRUE, FALSE, NULL, NaN, 2, \"\", \"a\", 0.5}: all histories of length 2 (after an initial insert; quick: a sample), random histories of length 3-40, each followed by the sizes of MAP_KEYS / MAP_VALUES and a membership probe per key; every non-map value as the map argument of every MAP procedure; every result line compared with the model (association list proved equal to the ideal finite map); MAP_KEYS / MAP_VALUES called twice with the first result changed in between (filled, empty, new map); values equal to the stored one but distinguishable (0 / -0, equal-contents lists); stored lists that come out of MAP_GET / MAP_INSERT / MAP_VALUES changed through the result and through the original".into(),
+        rule: "histories of MAP_INSERT / MAP_GET / MAP_CONTAINS_KEY on two maps with keys {1, 1.0, 0, -0, \"1\", TRUE, FALSE, NULL, NaN, 2, \"\", \"a\", 0.5}: all histories of length 2 (after an initial insert; quick: a sample), random histories of length 3-40, each followed by the sizes of MAP_KEYS / MAP_VALUES and a membership probe per key; every non-map value as the map argument of every MAP procedure; every result line compared with the model (association list proved equal to the ideal finite map); MAP_KEYS / MAP_VALUES called twice with the first result changed in between (filled, empty, new map); values equal to the stored one but distinguishable (0 / -0, equal-contents lists); stored lists that come out of MAP_GET / MAP_INSERT / MAP_VALUES changed through the result and through the original; maps as values of maps (itself, an alias, another, lists of maps)".into(),
         exhaustive: !ctx.quick(),
         notes: vec!["numeric keys that are == in the language but not IEEE-equal (within epsilon), and infinite keys, are outside the generator: known finding, see known_findings.txt".into()],
     }
